@@ -69,6 +69,9 @@ class PID0083(protocol_base.IrProtocolBase):
     ]
 
     def decode(self, data: list, frequency: int = 0) -> protocol_base.IRCode:
+        if len(data) < 2:
+            raise LeadOutError
+
         mark, space = data[-2:]
 
         if (
